@@ -378,7 +378,9 @@ func vfSnapshot(root string, o vfSnapOpts) vfTree {
 		case info.Mode().IsRegular():
 			n.Type = "f"
 			n.Size = info.Size()
-			if b, err := os.ReadFile(p); err == nil {
+			if info.Size() > 64<<20 {
+				n.Hash = "huge" // (a hostile SETSTAT may have made a sparse giant: do not read it)
+			} else if b, err := os.ReadFile(p); err == nil {
 				h := sha1.Sum(b)
 				n.Hash = hex.EncodeToString(h[:6])
 			} else {
